@@ -77,8 +77,9 @@ Step ==
          v08 == IF "C08" \in Props /\ judged /\ isRot /\ e.res = "ok" THEN C08Clauses(e) ELSE {}
          v09 == IF "C09" \in Props /\ judged THEN C09Clauses(e, ch1, enr1, cad1) ELSE {}
          pdrift == isRot /\ judged /\
-                   ~\E n \in Instants(e) : LET r == Rotate(e.pre, n, Par(e), e.op.reinit, 0) IN
+                   ~\E n \in Instants(e) : LET r == RotateF(e.pre, n, Par(e), e.op.reinit, 0, e.op.fault) IN
                         /\ (r.ok <=> e.res = "ok")
+                        /\ (~r.ok /\ ~HalfMissing(e.pre) => IsEmpty(e.post) = IsEmpty(r.s))
                         /\ (r.ok => (IF e.op.reinit THEN "both" ELSE Observed(e.pre, e.post)) = r.d)
      IN /\ \A c \in v08 : PrintT(<<"VIOL", "C08", c, e.tr, e.i>>)
         /\ \A c \in v09 : PrintT(<<"VIOL", "C09", c, e.tr, e.i>>)
